@@ -499,7 +499,7 @@ fn fam_structure(tier: &str) -> Report {
     let opn = if tier == "thorough" { operands.len() } else { 19 };
     let _ = opn;
     let opn = operands.len().min(if tier == "thorough" { operands.len() } else { 34 });
-    let mut render_h = |acts: &[Act], init: &str, handler: Option<(&str, bool)>, r: &mut Report| {
+    let mut render_hx = |acts: &[Act], init: &str, handler: Option<(&str, bool)>, hexpr: &str, r: &mut Report| {
         let mut s = String::from(init);
         let mut exp: Vec<(String, bool, &str, Vec<String>)> = vec![("Single".into(), false, "None", vec![squeeze(init)])];
         let mut depth = 0i32;
@@ -524,7 +524,7 @@ fn fam_structure(tier: &str) -> Report {
         // optionally a handler right behind the branch (with or without the separating comma: after a branch that ends
         // with a `{..}` operand the comma is optional, the handler keyword itself ends the operand)
         let input = match handler {
-            Some((kw, comma)) => format!("{}{} {} => |a, b| h(a, b), tail0 |> tail1", s, if comma { "," } else { "" }, kw),
+            Some((kw, comma)) => format!("{}{} {} => {}, tail0 |> tail1", s, if comma { "," } else { "" }, kw, hexpr),
             None => format!("{}, tail0 |> tail1", s),
         };
         let parsed = input.parse::<proc_macro2::TokenStream>().ok().and_then(|t| syn::parse2::<JoinInputDefault>(t).ok());
@@ -537,6 +537,13 @@ fn fam_structure(tier: &str) -> Report {
                 if ok && hk != handler.map(|h| h.0).unwrap_or("none") {
                     ok = false;
                     why = format!("handler parsed as `{}`, written as `{}`", hk, handler.map(|h| h.0).unwrap_or("none"));
+                }
+                if let (true, Some(h)) = (ok && handler.is_some(), &p.handler) {
+                    let got = squeeze(&h.extract_expr().to_token_stream().to_string());
+                    if got != squeeze(hexpr) {
+                        ok = false;
+                        why = format!("handler expression parsed as `{}`, written as `{}`", got, squeeze(hexpr));
+                    }
                 }
                 if ok {
                     for (m, e) in p.branches[0].members().iter().zip(exp.iter()) {
@@ -559,6 +566,7 @@ fn fam_structure(tier: &str) -> Report {
             }
         }
     };
+    let mut render_h = |acts: &[Act], init: &str, handler: Option<(&str, bool)>, r: &mut Report| render_hx(acts, init, handler, "|a, b| h(a, b)", r);
     let mut render = |acts: &[Act], init: &str, r: &mut Report| render_h(acts, init, None, r);
     let operand_for = |op: &str, k: usize| -> Vec<String> {
         let (_, _, ar) = OPS.iter().find(|o| o.0 == op).unwrap();
@@ -635,6 +643,16 @@ fn fam_structure(tier: &str) -> Report {
         // a block INITIAL value directly followed by a handler
         for kw in ["then", "map", "and_then"] {
             render_h(&[], "{ init() }", Some((kw, false)), &mut r);
+        }
+    }
+    // 9. handler EXPRESSIONS of every shape (the handler is any expression): closures whose body is a bare struct literal,
+    //    a path, a call, a block, a method chain on a struct literal - first, in the middle (before `tail0`), after a block
+    drop(render_h);
+    for kw in ["then", "map", "and_then"] {
+        for hx in ["|a, b| Pair { a, b }", "|a, b| Shape::Rect { w: a, h: b }.area()", "Pair::new", "mk_handler(1)", "{ let k = 1; move |a, b| a + b + k }",
+                   "|a: u8, b: u8| -> Pair { Pair { a, b } }", "move |a, b| if a > b { a } else { b }", "|a, b| match a { 0 => b, _ => a }"] {
+            render_hx(&[Act { op: "|>", deferred: false, wrap: false, operands: vec!["f".to_string()] }], "init()", Some((kw, true)), hx, &mut r);
+            render_hx(&[Act { op: "|>", deferred: true, wrap: false, operands: vec!["{ g }".to_string()] }], "init()", Some((kw, false)), hx, &mut r);
         }
     }
     // 7. operands ENDING with the try operator `?` are complete operands: followed by the end of the branch, by a deferred
